@@ -23,10 +23,20 @@ def expected_after_roundtrip(t, v, env):
         return [0, int(v)]
     if nm == "sequence":
         return [7, [expected_after_roundtrip(subs[0], x, env) for x in v]]
+    # two elements / keys that are distinct in the original (a node and the plain UUID naming it) encode to the same bytes and come
+    # back as ONE element: the decoder builds a set / dict, a later pair with an equal key replaces the earlier value
     if nm == "set":
-        return [8, [expected_after_roundtrip(subs[0], x, env) for x in v]]
+        out = {}
+        for x in v:
+            e = expected_after_roundtrip(subs[0], x, env)
+            out[repr(canon(e))] = e
+        return [8, list(out.values())]
     if nm == "mapping":
-        return [9, [[expected_after_roundtrip(subs[0], k, env), expected_after_roundtrip(subs[1], x, env)] for k, x in v.items()]]
+        out = {}
+        for k, x in v.items():
+            ek = expected_after_roundtrip(subs[0], k, env)
+            out[repr(canon(ek))] = [ek, expected_after_roundtrip(subs[1], x, env)]
+        return [9, list(out.values())]
     if nm == "tuple":
         return [10, [expected_after_roundtrip(s, x, env) for s, x in zip(subs, v)]]
     if nm == "variant":
